@@ -482,6 +482,10 @@ func genProgression(o ProgOpts, k0 string) *rapid.Generator[[]PItem] {
 			}
 			if coin(t, "keychange", o.KeyChanges) {
 				k := rapid.SampledFrom(theory.ListedKeys).Draw(t, "newkey")
+				if coin(t, "related-key", 50) {
+					// the modulations music actually uses: relative, parallel, dominant, subdominant, same key again
+					k = rapid.SampledFrom(relatedKeys(key)).Draw(t, "related")
+				}
 				p.Key = &k
 				key = k
 			}
@@ -541,4 +545,16 @@ func audible(vs []Frac) []Frac {
 		return vs
 	}
 	return []Frac{{1, 7}}
+}
+
+// relatedKeys lists the listed keys one conversion step away from k (and k itself, and its enharmonic twins).
+func relatedKeys(k string) []string {
+	kk := theory.ParseKey(k)
+	r := []string{k}
+	for _, c := range "rpds" {
+		pos, minor := theory.ConvStep(kk.CirclePos(), kk.Minor, byte(c))
+		r = append(r, theory.KeysAt(pos, minor)...)
+	}
+	r = append(r, theory.KeysAt(kk.CirclePos(), kk.Minor)...)
+	return r
 }
